@@ -45,6 +45,20 @@ Proof.
   destruct (_ || _); apply IH; exact HK.
 Qed.
 
+(* case analysis without abstracting over the (large) goal *)
+Lemma keeps_opt {C A} x (d : option A) (f : A -> option (notation_go_VerificationOutcome C * option err)) g :
+  (forall a, keeps x (f a)) -> keeps x g -> keeps x (match d with Some a => f a | None => g end).
+Proof. intros H1 H2. destruct d; [apply H1|exact H2]. Qed.
+Lemma keeps_if {C} x (d : bool) (t e : option (notation_go_VerificationOutcome C * option err)) :
+  keeps x t -> keeps x e -> keeps x (if d then t else e).
+Proof. intros H1 H2. destruct d; assumption. Qed.
+Lemma keeps_pair {C A B} x (d : A * B) (f : A -> B -> option (notation_go_VerificationOutcome C * option err)) :
+  (forall a b, keeps x (f a b)) -> keeps x (let '(a, b) := d in f a b).
+Proof. intros H. destruct d. apply H. Qed.
+Lemma keeps_pair_eq {C A B} x (d : A * B) (f : A -> B -> option (notation_go_VerificationOutcome C * option err)) :
+  (forall a b, d = (a, b) -> keeps x (f a b)) -> keeps x (let '(a, b) := d in f a b).
+Proof. intros H. destruct d. apply H. reflexivity. Qed.
+
 (* ---------- walking the generated term ---------- *)
 Ltac head_of t := lazymatch t with ?f _ => head_of f | _ => t end.
 
@@ -66,19 +80,57 @@ Ltac leaf Hppr :=
         pose proof (Hppr a b o) as Q; rewrite E in Q; cbn [fst] in Q; rewrite Q; unfold_outcomes; assumption
     end ].
 
+(* a let-bound continuation gets its own lemma (proved once, by walking its body), and is then
+   used through it: the walk is linear in the size of the term *)
 Ltac step Hppr IH :=
   lazymatch goal with
   | |- keeps _ None => exact I
   | |- keeps _ (Some _) => leaf Hppr
   | |- keeps ?x (let v := ?f in @?b v) =>
-      let v' := fresh v in pose (v' := f); change (keeps x (b v')); cbv beta
-  | |- keeps _ (match ?d with _ => _ end) => destruct d eqn:?
+      let v' := fresh v in
+      pose (v' := f); change (keeps x (b v')); cbv beta;
+      let T := type of f in
+      let H := fresh "Hk" in
+      lazymatch T with
+      | notation_go_VerificationOutcome _ -> _ -> _ -> option _ =>
+          assert (H : forall q1 q2 q3, VerificationOutcome_Error _ q1 = x -> keeps x (v' q1 q2 q3))
+            by (intros; unfold v'; cbv beta; repeat step Hppr IH);
+          clearbody v'
+      | notation_go_VerificationOutcome _ -> _ -> option _ =>
+          assert (H : forall q1 q2, VerificationOutcome_Error _ q1 = x -> keeps x (v' q1 q2))
+            by (intros; unfold v'; cbv beta; repeat step Hppr IH);
+          clearbody v'
+      | notation_go_VerificationOutcome _ -> option _ =>
+          assert (H : forall q1, VerificationOutcome_Error _ q1 = x -> keeps x (v' q1))
+            by (intros; unfold v'; cbv beta; repeat step Hppr IH);
+          clearbody v'
+      | _ -> _ -> option (notation_go_VerificationOutcome _ * _)%type =>
+          assert (H : forall q1 q2, keeps x (v' q1 q2))
+            by (intros; unfold v'; cbv beta; repeat step Hppr IH);
+          clearbody v'
+      | _ -> option (notation_go_VerificationOutcome _ * _)%type =>
+          assert (H : forall q1, keeps x (v' q1))
+            by (intros; unfold v'; cbv beta; repeat step Hppr IH);
+          clearbody v'
+      | _ => idtac
+      end
+  | |- keeps _ (match ?d with _ => _ end) =>
+      let T := type of d in
+      lazymatch T with
+      | option _ => apply keeps_opt; [intros ?|]
+      | bool => apply keeps_if
+      | (notation_go_VerificationOutcome _ * _)%type => apply keeps_pair_eq; intros ? ? ?
+      | (_ * _)%type => apply keeps_pair; intros ? ?
+      | _ => destruct d
+      end
   | |- keeps _ (gen_verifier_verifier_processSignature_loop2 _ _ _ _) => apply loop2_keeps
   | |- keeps _ (gen_verifier_verifier_processSignature_loop3 _ _ _ _ _) => apply loop3_keeps; intros ?
   | |- keeps _ (gen_verifier_verifier_processSignature_loop4 _ _ _ _) => apply loop4_keeps; intros ?
   | |- keeps _ (gen_verifier_verifier_processSignature_loop1 _ _ _ _ _ _ _ _ _ _ _ _ _ _ _ _ _ _ _ _ _ _ _ _ _ _ _ _ _) => apply IH
   | |- VerificationOutcome_Error _ _ = _ => unfold_outcomes; assumption
-  | |- keeps _ ?t => let h := head_of t in is_var h; unfold h; cbv beta
+  | |- keeps _ ?t =>
+      let h := head_of t in is_var h;
+      first [ match goal with H : forall _, _ |- _ => apply H end | unfold h; cbv beta ]
   end.
 
 Section Frame.
@@ -101,7 +153,25 @@ Lemma loop1_keeps x (Hppr : ppr_frame) caps o e name stores v sv plugin ids cfg 
 Proof.
   intros Ho. induction l as [|a l IH].
   2:{ cbn [gen_verifier_verifier_processSignature_loop1]. repeat step Hppr IH. }
-  cbn [gen_verifier_verifier_processSignature_loop1].
+  cbv beta iota fix delta [gen_verifier_verifier_processSignature_loop1].
   repeat step Hppr IH.
 Qed.
+
+(* THE FRAME PROPERTY: whatever processSignature returns, the outcome carries the Error it was handed *)
+Theorem processSignature_keeps_error (K : C02_GenSig.call O) :
+  ppr_frame ->
+  keeps (VerificationOutcome_Error C (C02_GenSig.cl_outcome K)) (C02_GenSig.run O K).
+Proof.
+  intros Hppr. unfold C02_GenSig.run, gen_verifier_verifier_processSignature.
+  set (x := VerificationOutcome_Error C (C02_GenSig.cl_outcome K)).
+  assert (Ho : VerificationOutcome_Error C (C02_GenSig.cl_outcome K) = x) by reflexivity.
+  clearbody x.
+  pose proof (fun caps o e name stores v sv plugin ids cfg l => loop1_keeps x Hppr caps o e name stores v sv plugin ids cfg l) as L.
+  repeat step Hppr L.
+Qed.
+
+Corollary processSignature_error_unchanged (K : C02_GenSig.call O) out e :
+  ppr_frame -> C02_GenSig.run O K = Some (out, e) ->
+  VerificationOutcome_Error C out = VerificationOutcome_Error C (C02_GenSig.cl_outcome K).
+Proof. intros Hppr R. pose proof (processSignature_keeps_error K Hppr) as H. rewrite R in H. exact H. Qed.
 End Frame.
